@@ -1,4 +1,5 @@
 import AITB.Model.Proto
+import AITB.Model.C16Check
 open AITB
 namespace DrvC16
 
@@ -6,19 +7,25 @@ namespace DrvC16
 def same : P String := do
   let subj ← P.tok; let scen ← P.tok; P.bar
   let a ← P.xs; let b ← P.xs; P.eof
-  let eqX : XRat → XRat → Bool := fun x y => match x, y with
-    | .nan, .nan => true | .pinf, .pinf => true | .ninf, .ninf => true
-    | .fin p, .fin q => p == q | _, _ => false
-  let rec firstDiff : List XRat → List XRat → Nat → Option Nat
-    | [], [], _ => none
-    | x :: xs, y :: ys, i => if eqX x y then firstDiff xs ys (i+1) else some i
-    | _, _, i => some i
-  match firstDiff a b 0 with
+  match Hidden.firstDiff a b 0 with
   | none => return (if a.length ≤ 1 then "ok trivial" else s!"ok {scen}")
-  | some i => return s!"fail {subj} {scen} first_difference_at={i} a={a.getD i .nan} b={b.getD i .nan} lens={a.length},{b.length}"
+  | some i =>
+    -- the clause failed either way; the kind says whether the two runs agree up to a few units in the last place (same
+    -- discrete results, rounding differs) or really differ, so that a recorded last-bits finding cannot absorb a real one
+    let scen := if Hidden.lastBitsOnly a b then scen ++ "_last_bits_only" else scen
+    return s!"fail {subj} {scen} first_difference_at={i} a={a.getD i .nan} b={b.getD i .nan} lens={a.length},{b.length}"
+
+/-- `differ <subject> <scenario> | n a… n b…` : two engine-driven streams that must not coincide -/
+def differ : P String := do
+  let subj ← P.tok; let scen ← P.tok; P.bar
+  let a ← P.xs; let b ← P.xs; P.eof
+  if a.length < Hidden.minStream then return "ok trivial"
+  if Hidden.streamsDifferB a b then return s!"ok {scen}"
+  return s!"fail {subj} {scen}_stream_identical len={a.length} (engine not seeded from the root seed: same stream for both)"
 
 def handle (toks : List String) : String :=
   (match toks with
    | "same" :: rest => P.run same rest
+   | "differ" :: rest => P.run differ rest
    | _ => none).getD "bad-op"
 end DrvC16
